@@ -1,7 +1,7 @@
 (* Correspondence cases for C02: the batches the real node issued (abstracted to record classes) and what
    re-opening every prefix gave, compared with the model (Node/Crash.v, Node/Stages.v). *)
 From NG Require Import Common.Tactics Common.HarnessLib.
-From NG Require Export Node.Crash Node.Stages.
+From NG Require Export Node.Crash Node.Stages Node.CrashGC.
 Open Scope N_scope.
 
 (* observed values: payloads are opaque *)
@@ -14,7 +14,12 @@ Inductive rres := ROk (h hh : N) | RBroken | RStuck | RFail.
 Inductive case :=
 | CPersist (gc : bool) (ntx : list N) (ops : list op) (obs : list obatch) (recov : list rres)
 | CReset (keep init : bool) (ntx : list N) (c hh h : N) (p : bool) (obs : list obatch) (recov : list rres)
-| CJump (jor : bool) (p top mtb : N) (obs : list obatch) (recov : list rres).
+| CJump (jor : bool) (p top mtb : N) (obs : list obatch) (recov : list rres)
+| CLongGC (ps gcp mtb : N) (fl : list (N * bool)) (obs : list (list (N * N) * list (N * N)))
+          (kinds : list N) (recov : list rres).
+      (* long chain: per flush (persisted height, with GC?) - which block records the flushed batch deletes and
+         which header-hash pages the GC after it deletes; kinds of all batches (0 put, 1 gc, 2 gc of pages);
+         outcome of re-opening every prefix *)
 
 (* ---- instantiation: the state after block i is "i" ---- *)
 Definition Sx := N. Definition Rx := N.
@@ -242,9 +247,45 @@ Definition check_jump (jor : bool) p top mtb (obs : list obatch) (recov : list r
       (map (fun j => out_res (xboot fx [] trusted mtb (apply_all d (firstn j pred)))) (seq 0 (S (length pred)))) in
   code_of m (forallb (rres_eqb (ROk p top)) recov).
 
+(* ---- long chains: removal of untraceable blocks and header-hash pages ---- *)
+Definition range_eqb (a b : N * N) : bool := (fst a =? fst b) && (snd a =? snd b).
+Definition obs_eqb (a b : list (N * N) * list (N * N)) : bool :=
+  list_eqb range_eqb (fst a) (fst b) && list_eqb range_eqb (snd a) (snd b).
+
+(* walk the batches: a put batch moves to the next flush height, a page batch removes that flush's pages *)
+Fixpoint long_recov (ps : N) (kinds : list N) (fl : list (N * bool)) (plan : list (list (N * N) * list (N * N)))
+         (h : N) (cur_pages : list (N * N)) (deleted : option N) : list rres :=
+  let res := fun h del =>
+    let stored := stored_count ps h in
+    match del with
+    | Some till => if (ps <=? stored) && (stored - ps <=? till) then RFail else ROk h h
+    | None => ROk h h
+    end in
+  match kinds with
+  | [] => []
+  | k :: t =>
+      if k =? 0 then
+        match fl, plan with
+        | (new, _) :: fl', (_, pg) :: plan' => res new deleted :: long_recov ps t fl' plan' new pg deleted
+        | _, _ => [RBroken]
+        end
+      else if k =? 2 then
+        let del := match rev cur_pages with (p, _) :: _ => Some p | [] => deleted end in
+        res h del :: long_recov ps t fl plan h cur_pages del
+      else res h deleted :: long_recov ps t fl plan h cur_pages deleted
+  end.
+
+Definition check_long ps gcp mtb fl obs kinds (recov : list rres) : N :=
+  let agree keep :=
+    let plan := gc_plan ps gcp mtb keep fl 0 0 0 [] in
+    list_eqb obs_eqb plan obs &&
+    list_eqb rres_eqb recov (ROk 0 0 :: long_recov ps kinds fl plan 0 [] None) in
+  code_of (agree false || agree true) (forallb (fun r => match r with ROk _ _ => true | _ => false end) recov).
+
 Definition check_case (c : case) : N :=
   match c with
   | CPersist gc ntx ops obs recov => check_persist gc ntx ops obs recov
   | CReset keep init ntx c hh h p obs recov => check_reset keep init ntx c hh h p obs recov
   | CJump jor p top mtb obs recov => check_jump jor p top mtb obs recov
+  | CLongGC ps gcp mtb fl obs kinds recov => check_long ps gcp mtb fl obs kinds recov
   end.
